@@ -322,7 +322,11 @@ def mon_c09(s, v):
         else:
             d = decs[0]
             rs = canon_props(d["props"]).get(0x1F, [b""])[0]
-            internal = d["rc"] in (0x80, 0x81, 0x82) and (rs.startswith((b"Malformed", b"No reply received", b"Unexpected AUTH", b"Re-authentication")) or d["props"] == [] and o.rc not in (0x80, 0x81, 0x82))
+            # the library's own DISCONNECT is recognised by its reason string; on a connection with a Maximum Packet Size too small for it the
+            # string is dropped (disconnect_op falls back to the bare reason code): then by a bare internal code that is not the caller's
+            mps = conn_caps(s).get(o.conn_at_init, {}).get(0x27, [None])[0]
+            bare_internal = d["props"] == [] and d["rc"] != o.rc and (o.rc not in (0x80, 0x81, 0x82) or mps is not None)
+            internal = d["rc"] in (0x80, 0x81, 0x82) and (rs.startswith((b"Malformed", b"No reply received", b"Unexpected AUTH", b"Re-authentication")) or bare_internal)
             if internal and (d["rc"] != o.rc or canon_props(d["props"]) != canon_props(o.props)):
                 f.append(f"KNOWN-F21: an internal DISCONNECT (rc={d['rc']}, {rs[:40]!r}) queued before async_disconnect was written instead of the caller's (rc={o.rc}); the caller's DISCONNECT never reaches the wire")
             elif d["rc"] != o.rc or (canon_props(d["props"]) != canon_props(o.props) and d["props"] != []):
